@@ -557,6 +557,17 @@ func (s *Sim) checkRestartEconomy() {
 			s.viol("C07", "sent-log-repeats", "%s has %d records in the sent log (sender crashes: %d)", k, n, s.restartsS)
 		}
 	}
+	// ... and at least one: whatever was released (marked done, deleted) as confirmed is on record
+	// in the sent log, whichever sender generation wrote it
+	for _, r := range s.releases {
+		if r.hash == "" || s.tainted[r.name] {
+			continue
+		}
+		if cnt[r.name+"|"+r.hash] == 0 {
+			s.viol("C07", "released-without-sent-log-record", "the sender %s %s (content %.6s) as confirmed, but its sent log has no record of that version (sender crashes: %d)", r.kind, r.name, r.hash, s.restartsS)
+			return
+		}
+	}
 }
 
 func TestC07Sim(t *testing.T) {
